@@ -249,3 +249,11 @@ func SortedKeys(m map[string]bool) []string {
 
 // Sub holds extra sub-commands (worker modes) registered by property packages.
 var Sub = map[string]func(args []string) int{}
+
+// DistinctAdd counts n cases that are pairwise distinct by construction
+// (enumerated, not sampled) without storing a signature for each.
+func (c *Ctx) DistinctAdd(n int64) {
+	c.mu.Lock()
+	c.res.Counters["distinct_by_enumeration"] += n
+	c.mu.Unlock()
+}
